@@ -178,6 +178,8 @@ class Tr:
             b, v, t = self.e(n.operand, env)
             if isinstance(n.op, ast.Not) and t == B:
                 return b, f"(negb {v})", B
+            if isinstance(n.op, ast.Not) and t == S:          # empty string is falsy
+                return b, f"(String.eqb {v} EmptyString)", B
             if isinstance(n.op, ast.USub) and t == Z:
                 return b, f"(- {v})%Z", Z
             _bad(n)
@@ -209,6 +211,17 @@ class Tr:
             if ta != td:
                 _bad(n, "if-exp branch types")
             return bc, self.raising(bc, f"(if {c} then {a} else {d})"), ta
+        if isinstance(n, ast.Subscript) and isinstance(n.slice, ast.Slice):
+            sl = n.slice
+            b1, l, tl = self.e(n.value, env)
+            if (tl == S and sl.upper is None and sl.step is None and isinstance(sl.lower, ast.Constant)
+                    and isinstance(sl.lower.value, int) and sl.lower.value >= 0):
+                return b1, f"(str_drop {sl.lower.value} {l})", S
+            if (tl == S and sl.lower is None and sl.step is None and isinstance(sl.upper, ast.UnaryOp)
+                    and isinstance(sl.upper.op, ast.USub) and isinstance(sl.upper.operand, ast.Constant)
+                    and isinstance(sl.upper.operand.value, int) and sl.upper.operand.value > 0):
+                return b1, f"(str_drop_end {sl.upper.operand.value} {l})", S
+            _bad(n, "slice")
         if isinstance(n, ast.Subscript):
             b1, l, tl = self.e(n.value, env)
             b2, i, ti = self.e(n.slice, env)
@@ -264,6 +277,11 @@ class Tr:
             if t != Z:
                 _bad(n)
             return b, self.raising(b, f"(dtype_of_code {v})"), DT  # ValueError
+        if isinstance(n.func, ast.Attribute) and not n.args and n.func.attr == "isdigit":
+            b, v, t = self.e(n.func.value, env)
+            if t != S:
+                _bad(n, "isdigit on non-str")
+            return b, f"(str_isdigit {v})", B
         if isinstance(n.func, ast.Attribute) and not n.args:
             b, v, t = self.e(n.func.value, env)
             if t == DT and n.func.attr == "is_signed":
@@ -283,7 +301,7 @@ class Tr:
                 _bad(n)
             if n.func.attr == "startswith":
                 return b + b2, f"(str_startswith {a} {v})", B
-            _bad(n, "endswith")
+            return b + b2, f"(str_endswith {a} {v})", B
         if f in self.sigs:
             argts, rt, cname = self.sigs[f]
             if len(argts) != len(n.args):
@@ -459,6 +477,14 @@ class Tr:
                 a = self.stmts(cont(some_body), env_some, ret)
                 b_ = self.stmts(cont(none_body), env, ret)
                 return f"(match {x} with\n | Some {x} => {a}\n | None => {b_} end)"
+            if (isinstance(t, ast.UnaryOp) and isinstance(t.op, ast.Not) and isinstance(t.operand, ast.Name)
+                    and env.get(t.operand.id, Z) == Opt(S) and ends_in_return(s.body) and not s.orelse):
+                x = t.operand.id
+                falsy = self.stmts(list(s.body), env, ret)
+                env_some = dict(env)
+                env_some[x] = S
+                truthy = self.stmts(rest, env_some, ret)
+                return (f"(match {x} with\n | None => {falsy}\n | Some {x} => if String.eqb {x} EmptyString then {falsy} else {truthy} end)")
             conj = list(t.values) if isinstance(t, ast.BoolOp) and isinstance(t.op, ast.And) else [t]
 
             def is_nn(c):
